@@ -122,7 +122,7 @@ func buildAtomicIndex(P *Program) *atomicIndex {
 					a.plain = append(a.plain, plainAccess{fn: f, ins: x, kind: "write", live: live[f]})
 				}
 			case *ssa.UnOp:
-				if x.X == addr && !fresh {
+				if x.X == addr && !fresh && !onlyLenOfArray(x) {
 					a.plain = append(a.plain, plainAccess{fn: f, ins: x, kind: "read", live: live[f]})
 				}
 			case *ssa.IndexAddr:
@@ -313,4 +313,23 @@ func rootIsAlloc(v ssa.Value) bool {
 		}
 	}
 	return false
+}
+
+// onlyLenOfArray: the load of a whole array whose value is used for nothing but len / cap (`for i := range arr`):
+// the length of an array is a constant, no memory is read.
+func onlyLenOfArray(ld *ssa.UnOp) bool {
+	if _, ok := ld.Type().Underlying().(*types.Array); !ok {
+		return false
+	}
+	for _, r := range refsOf(ld) {
+		call, ok := r.(*ssa.Call)
+		if !ok {
+			return false
+		}
+		b, ok := call.Call.Value.(*ssa.Builtin)
+		if !ok || (b.Name() != "len" && b.Name() != "cap") {
+			return false
+		}
+	}
+	return true
 }
